@@ -44,6 +44,35 @@ func checkJsonType(types *syntax.TypeLookup, val json.RawMessage,
 // lists from MRO.
 type LazyArgumentMap map[string]json.RawMessage
 
+// sortedKeys returns the keys of the map in sorted order, so that messages
+// which are generated while iterating over it are repeatable.
+func (self LazyArgumentMap) sortedKeys() []string {
+	keys := make([]string, 0, len(self))
+	for k := range self {
+		keys = append(keys, k)
+	}
+	sort.Strings(keys)
+	return keys
+}
+
+func sortedInParamIds(params *syntax.InParams) []string {
+	ids := make([]string, 0, len(params.Table))
+	for id := range params.Table {
+		ids = append(ids, id)
+	}
+	sort.Strings(ids)
+	return ids
+}
+
+func sortedOutParamIds(params *syntax.OutParams) []string {
+	ids := make([]string, 0, len(params.Table))
+	for id := range params.Table {
+		ids = append(ids, id)
+	}
+	sort.Strings(ids)
+	return ids
+}
+
 var nullBytes = []byte(syntax.KindNull)
 
 // Validate that all of the arguments in the map are declared parameters, and
@@ -73,7 +102,8 @@ func (self LazyArgumentMap) ValidateInputs(types *syntax.TypeLookup,
 		t := param.GetTname()
 		return t.String()
 	}
-	for _, param := range expected.Table {
+	for _, id := range sortedInParamIds(expected) {
+		param := expected.Table[id]
 		if val, ok := self[param.GetId()]; !ok {
 			fmt.Fprintf(&result, "Missing input parameter '%s'\n", param.GetId())
 			continue
@@ -90,7 +120,8 @@ func (self LazyArgumentMap) ValidateInputs(types *syntax.TypeLookup,
 				err.Error())
 		}
 	}
-	for key, val := range self {
+	for _, key := range self.sortedKeys() {
+		val := self[key]
 		if _, ok := expected.Table[key]; !ok {
 			isOptional := false
 			for _, params := range optional {
@@ -148,7 +179,8 @@ func (self LazyArgumentMap) ValidateOutputs(types *syntax.TypeLookup,
 		t := param.GetTname()
 		return t.String()
 	}
-	for _, param := range expected.Table {
+	for _, id := range sortedOutParamIds(expected) {
+		param := expected.Table[id]
 		if val, ok := self[param.GetId()]; !ok {
 			fmt.Fprintf(&result, "Missing output value '%s'\n", param.GetId())
 			continue
@@ -165,7 +197,8 @@ func (self LazyArgumentMap) ValidateOutputs(types *syntax.TypeLookup,
 				err.Error())
 		}
 	}
-	for key, val := range self {
+	for _, key := range self.sortedKeys() {
+		val := self[key]
 		if _, ok := expected.Table[key]; !ok {
 			isOptional := false
 			for _, params := range optional {
@@ -348,7 +381,8 @@ func (m LazyArgumentMap) GoString() string {
 	if err := buf.WriteByte('{'); err != nil {
 		panic(err)
 	}
-	for i, v := range m {
+	for _, i := range m.sortedKeys() {
+		v := m[i]
 		if err := buf.WriteByte(' '); err != nil {
 			panic(err)
 		}
@@ -375,6 +409,16 @@ func (m LazyArgumentMap) GoString() string {
 //
 // Marshaling outputs keys in sorted order.
 type MarshalerMap map[string]json.Marshaler
+
+// sortedKeys returns the keys of the map in sorted order.
+func (m MarshalerMap) sortedKeys() []string {
+	keys := make([]string, 0, len(m))
+	for k := range m {
+		keys = append(keys, k)
+	}
+	sort.Strings(keys)
+	return keys
+}
 
 func (m MarshalerMap) MarshalJSON() ([]byte, error) {
 	if m == nil {
@@ -483,7 +527,8 @@ func (m MarshalerMap) ToLazyArgumentMap() (LazyArgumentMap, error) {
 		return nil, nil
 	}
 	result := make(LazyArgumentMap, len(m))
-	for k, v := range m {
+	for _, k := range m.sortedKeys() {
+		v := m[k]
 		if v == nil {
 			result[k] = nil
 		} else {
@@ -548,7 +593,8 @@ func (m MarshalerMap) GoString() string {
 	if err := buf.WriteByte('{'); err != nil {
 		panic(err)
 	}
-	for i, v := range m {
+	for _, i := range m.sortedKeys() {
+		v := m[i]
 		if err := buf.WriteByte(' '); err != nil {
 			panic(err)
 		}
